@@ -6,7 +6,7 @@ import warnings
 
 import numpy as np
 
-from mc.estimators import build
+from mc.estimators import build, build_via, ROUTES
 from mc.util import call, raised
 
 ID = "C06"
@@ -49,6 +49,13 @@ def bounds(tier, seed):
 
 
 def cases(tier, seed):
+    """The parameters of every step of every chain arrive through one of four routes (constructor / set_params / attribute / clone),
+    rotating over the cases and with the seed; the hand-threaded reference always uses the constructor."""
+    for i, c in enumerate(_cases(tier, seed)):
+        yield dict(c, route=ROUTES[(i + seed) % 4]) if c["kind"] == "chain" else c
+
+
+def _cases(tier, seed):
     maxlen = 3 if tier == "quick" else 4
     for alpha, names in (("scalar", sorted(SCALAR)), ("vector", sorted(VECTOR))):
         for L in range(1, maxlen + 1):
@@ -109,13 +116,13 @@ def _table(alpha):
     return SCALAR if alpha == "scalar" else VECTOR
 
 
-def _mk(alpha, key, weighted):
+def _mk(alpha, key, weighted, route="ctor"):
     spec = _table(alpha)[key]
     if key == "BR" and weighted:
         spec = ["BlockReduce", {"reduction": "average", "spacing": 1.0}]
     if key == "NR" and weighted:
         spec = ["Chain", {"steps": [["BlockReduce", {"reduction": "average", "spacing": 1.0}], ["Trend", {"degree": 1}]]}]
-    return build(spec, 1.0)
+    return build_via(spec, 1.0, route)
 
 
 def _as_list(x):
@@ -180,7 +187,7 @@ def run(case, rec):
         def chain():
             naming = case.get("naming", "unique")
             name = {"unique": lambda i: "s%d" % i, "dup": lambda i: "step", "rev": lambda i: "s%d" % (9 - i)}[naming]
-            return vd.Chain([(name(i), _mk(alpha, k, weighted)) for i, k in enumerate(steps)])
+            return vd.Chain([(name(i), _mk(alpha, k, weighted, case.get("route", "ctor"))) for i, k in enumerate(steps)])
 
         scale = 30.0
         if kind == "chain":
